@@ -514,3 +514,13 @@ def i13(ctx):
 
 
 RULES.append(i13)
+
+
+@rule("I14", doc="every class slot occurs in each of the class's e-nodes when the work-list handler is done with a node: the inclusion test is repeated after every shrink against the re-canonicalised node (C08.SI), and the self-symmetry derivation examines every variant, the node itself included (C02.P6) — a class that owns a slot one of its nodes lacks hands out malformed invocations for terms it already represents")
+def i14(ctx):
+    C.slot_inclusion(ctx, ctx.lib())
+    from . import c02
+    c02.p6(ctx)
+
+
+RULES.append(i14)
